@@ -81,7 +81,7 @@ class TLCResult:
 
 
 def run_tlc(module, cfg, workers=16, coverage=False, simulate=None, depth=None, seed=None,
-            timeout=3600, keep_vectors=True, extra_args=(), vec_sink=None, java_opts=()):
+            timeout=3600, keep_vectors=True, extra_args=(), vec_sink=None, java_opts=(), env=None, line_sink=None):
     """module: file name under spec/mc or spec/trace (or absolute path).  cfg: text of the config."""
     path = module
     if not os.path.isabs(path):
@@ -115,8 +115,11 @@ def run_tlc(module, cfg, workers=16, coverage=False, simulate=None, depth=None, 
         cmd.append(path)
         res.cmd = " ".join(cmd)
         t0 = time.time()
+        penv = dict(os.environ)
+        if env:
+            penv.update(env)
         proc = subprocess.Popen(cmd, cwd=tmp, stdout=subprocess.PIPE, stderr=subprocess.STDOUT,
-                                text=True, bufsize=1 << 20)
+                                text=True, bufsize=1 << 20, env=penv)
         other = []
         try:
             for line in proc.stdout:
@@ -130,7 +133,10 @@ def run_tlc(module, cfg, workers=16, coverage=False, simulate=None, depth=None, 
                     elif keep_vectors:
                         res.vectors.append(v)
                 else:
-                    other.append(line)
+                    if line_sink is not None and line.startswith("<<"):
+                        line_sink(line.rstrip("\n"))
+                    else:
+                        other.append(line)
                 if time.time() - t0 > timeout:
                     proc.kill()
                     raise TLCError("TLC timeout")
